@@ -58,6 +58,9 @@ func ZeroValueOf(typeExpr ast.Expr, typ types.Type) ast.Expr {
 		case info&types.IsBoolean != 0:
 			zv = &ast.Ident{Name: "false"}
 		}
+		if zv == nil {
+			return nil // E.g. complex numbers and unsafe.Pointer
+		}
 		if isDefaultLiteralType(typ) {
 			return zv
 		}
